@@ -81,7 +81,8 @@ def showDiff : Option Diff → String
 
 def parseCOut : String → Option COut
   | "ok" => some .ok | "nostate" => some .okNoState | "raise" => some .raise
-  | "spf" => some .statePickleFail | "unp" => some .resultUnpicklable | _ => none
+  | "spf" => some .statePickleFail | "unp" => some .resultUnpicklable
+  | "req" => some .requestUnreadable | _ => none
 
 def allNats (ws : List String) : Option (List Nat) :=
   let r := ws.filterMap (·.toNat?)
